@@ -16,6 +16,10 @@ FUNCS = ['PEPit/wrappers/cvxpy_wrapper.py::CvxpyWrapper._recover_dual_values', '
 
 
 def run(run):
+    from pyvc import skeleton
+    skeleton.apply(run, 'C01')
+    from pyvc import leancheck
+    leancheck.check(run, 'Certificate.lean', 'weak duality from the certificate identity')
     from pyvc import components, runner
     runner.load_contracts()
     components.ast_functions(run, FUNCS, run.tier, rt_quick=12, rt_thorough=60)
